@@ -412,3 +412,92 @@ def v5(ctx):
 def v6(ctx):
     from .c04 import a1
     return a1(ctx)
+
+
+def normalized_obligations(ctx):
+    """What a File class hands to the store is either the very bytes it validated (`self.content`) or the serialisation
+    of the object it parsed from them, in a container that can be iterated more than once."""
+    obs = []
+    base = ctx.P.cls("xandikos.store.File")
+    classes = [base] + base.all_subclasses()
+    n = 0
+    for ci in classes:
+        if "normalized" not in ci.methods and ci is not base:
+            continue
+        f = ctx.own_method(ci.qualname, "normalized")
+        cfg = ctx.cfg(f)
+        du = DefUse(cfg)
+        rets = [r for r in cfg.nodes if r.kind == "return"]
+        is_gen = any(isinstance(x, (ast.Yield, ast.YieldFrom)) for x in ast.walk(f.node))
+        problems = []
+        if is_gen:
+            problems.append("is a generator (can be consumed only once; the tree store iterates the data twice)")
+        if not rets and not is_gen:
+            raise AnalysisError("%s.normalized has no return" % ci.qualname)
+
+        def serialised(node, e) -> bool:
+            """`<self.parsed>.to_ical()` / `.serialize()`: the parsed object written out by its own library."""
+            os_ = origins(du, node, e)
+            return bool(os_) and all(o.kind == "expr" and isinstance(o.leaf, ast.Call) and isinstance(o.leaf.func, ast.Attribute)
+                                     and o.leaf.func.attr in ("to_ical", "serialize") and not o.leaf.args
+                                     and (dotted(o.leaf.func.value) or "").startswith("self.") for o in os_)
+
+        for r in rets:
+            v = r.ast.value
+            if v is None:
+                problems.append("returns None")
+                continue
+            for o in origins(du, r, v):
+                lf = o.leaf
+                if o.kind == "expr" and isinstance(lf, ast.Attribute) and dotted(lf) == "self.content" and not o.path:
+                    continue
+                if o.kind == "expr" and isinstance(lf, (ast.List, ast.Tuple)) and lf.elts and all(serialised(o.node or r, x) for x in lf.elts):
+                    continue
+                if o.kind == "expr" and isinstance(lf, (ast.GeneratorExp,)):
+                    problems.append("returns a generator expression `%s` (can be consumed only once)" % src(lf)[:50])
+                else:
+                    problems.append("returns `%s`" % (src(lf)[:60] if lf is not None else o.kind))
+        n += 1
+        obs.append(ctx.ob(not problems, f.qualname, f.where, "normalized() is the validated content or its serialisation",
+                          "returns self.content or [<parsed object>.to_ical()/serialize()]",
+                          "%s.normalized %s: the bytes that are stored are neither the bytes validate() looked at nor the library's own "
+                          "serialisation of the parsed object, so the stored member need not parse (or carry the UID that was checked), and "
+                          "storing what GET serves need not give the same bytes" % (ci.name, "; ".join(problems))))
+    if n < 2:
+        raise AnalysisError("only %d normalized() implementations found" % n)
+    return obs
+
+
+@rule("C14", "V7", floor=2, kind="S",
+      desc="what is stored is what was validated: File.normalized() returns the validated content itself or the parsed "
+           "object's own serialisation, as a re-iterable container - no byte / text rewriting of its own")
+def v7(ctx):
+    return normalized_obligations(ctx)
+
+
+@rule("C14", "V8", floor=1, kind="S",
+      desc="the parser is given the uploaded bytes: Calendar.from_ical receives b''.join(self.content) - not decoded "
+           "text (a one-line str is taken for a file name by the library and read from the server's disk)")
+def v8(ctx):
+    f = ctx.own_method("xandikos.icalendar.ICalendarFile", "calendar")
+    cfg = ctx.cfg(f)
+    du = DefUse(cfg)
+    obs = []
+    calls = [(n, c) for n in cfg.stmt_nodes() for c in n.calls() if (dotted(c.func) or "").endswith("Calendar.from_ical") and c.args]
+    if not calls:
+        raise AnalysisError("ICalendarFile.calendar: Calendar.from_ical call not found")
+    for n, c in calls:
+        os_ = origins(du, n, c.args[0])
+        def is_bytes(lf):
+            return (isinstance(lf, ast.Call) and isinstance(lf.func, ast.Attribute) and lf.func.attr == "join" and isinstance(lf.func.value, ast.Constant)
+                    and isinstance(lf.func.value.value, bytes)) or (isinstance(lf, ast.Constant) and isinstance(lf.value, bytes)) \
+                or (isinstance(lf, ast.Call) and isinstance(lf.func, ast.Attribute) and lf.func.attr == "encode")
+        texty = [src(o.leaf)[:50] for o in os_ if o.leaf is not None and any(isinstance(x, ast.Call) and isinstance(x.func, ast.Attribute) and x.func.attr == "decode"
+                                                                             or isinstance(x, ast.Call) and dotted(x.func) == "str" for x in ast.walk(o.leaf))]
+        ok = bool(os_) and all(o.kind == "expr" and is_bytes(o.leaf) for o in os_)
+        if not ok and not texty:
+            raise AnalysisError("ICalendarFile.calendar: argument of from_ical `%s` not understood" % src(c.args[0])[:50])
+        obs.append(ctx.ob(ok, f.qualname, where(f, n), "from_ical(<bytes of the upload>)", "b''.join(self.content)",
+                          "Calendar.from_ical is given text (`%s`): the installed parser treats a str without line breaks as a path and "
+                          "parses that file, so a body that is not calendar data at all is accepted and stored" % (texty[0] if texty else "")))
+    return obs
